@@ -20,7 +20,7 @@ DEFAULT_CFG = {
     'four_bytes_as': True, 'route_refresh': True, 'cisco_route_refresh': True,
     'enhanced_route_refresh': True, 'graceful_restart': True, 'cisco_multi_session': True,
     'add_path': None, 'afi_safi': ['ipv4'], 'rib': False, 'md5': None, 'setsockopt_fails': False,
-    'peer_id': 0x0A000002, 'debug_log': False, 'gethost_fails': 0,
+    'peer_id': 0x0A000002, 'debug_log': False, 'gethost_fails': 0, 'handler_fault': None,
     'username': 'admin', 'password': 'admin',
 }
 
@@ -122,6 +122,13 @@ def _make_handler_cls():
 
         def _rec(self, name, payload=None):
             self.world.sim.effect(('cb', name, _summ(payload)))
+            # the application's handler does I/O (the default one writes and fsyncs a log record per message): one call may fail
+            f = self.world.cfg.get('handler_fault')
+            if f and f[0] == name:
+                n = self.world.handler_calls.get(name, 0) + 1
+                self.world.handler_calls[name] = n
+                if n == f[1]:
+                    raise OSError(28, 'No space left on device')
 
         def on_update_error(self, peer, timestamp, msg):
             self._rec('on_update_error', msg)
@@ -179,6 +186,7 @@ class AgentWorld(object):
         self.obs_log = []
         self.exceptions = []
         self.overruns = 0
+        self.handler_calls = {}
         self.held = []          # reactor.callFromThread calls of a REST worker thread that has not been scheduled again yet
         self._boot(handler_factory)
 
